@@ -200,18 +200,7 @@ constraint:
 					col := st.column(c.IndexedColumns[0].Column)
 					intPK = col != nil && isRowid(true, col.Type, c.IndexedColumns[0].SortOrder)
 				}
-				// SQLite removes the redundant columns of a WITHOUT ROWID
-				// primary key (same column, same collation).
-				var pkCols []IndexColumn
-			pkcol:
-				for _, co := range st.toIndexColumns(c.IndexedColumns) {
-					for _, have := range pkCols {
-						if sameIndexColumns([]IndexColumn{have}, []IndexColumn{co}) {
-							continue pkcol
-						}
-					}
-					pkCols = append(pkCols, co)
-				}
+				pkCols := st.toIndexColumns(c.IndexedColumns)
 				if intPK {
 					// SQLite rebuilds this primary key from the column
 					// alone: a COLLATE in the constraint is not used.
@@ -226,6 +215,20 @@ constraint:
 						autoindex++
 					}
 				}
+				// Once the index exists SQLite removes the redundant columns
+				// of a WITHOUT ROWID primary key (same column, same
+				// collation).
+				var uniq []IndexColumn
+			pkcol:
+				for _, co := range st.PK {
+					for _, have := range uniq {
+						if sameIndexColumns([]IndexColumn{have}, []IndexColumn{co}) {
+							continue pkcol
+						}
+					}
+					uniq = append(uniq, co)
+				}
+				st.PK = uniq
 				continue
 			}
 			name := fmt.Sprintf("sqlite_autoindex_%s_%d", st.Table, autoindex)
